@@ -31,7 +31,7 @@ func recordMapper[T any](t time.Time) func(T) TsRecord[T] {
 // timeWeightedAverage computes the time-weighted average of two values (v1 and v2) at their respective times (v1Time and v2Time).
 func timeWeightedAverage[N Number](targetTime, v1Time time.Time, v1 N, v2Time time.Time, v2 N) (N, error) {
 	if v1Time.Equal(v2Time) {
-		if v1Time == targetTime {
+		if v1Time.Equal(targetTime) {
 			return v1, nil
 		}
 		return 0, fmt.Errorf("v1Time and v2Time are the same: %s. targetTime:%s", v1Time, targetTime)
